@@ -1,4 +1,5 @@
 import VibeProof.Model.Par
+import VibeProof.Generated.Consts
 import VibeProof.Lemmas.Join
 /-
 C04 — results do not depend on the parallelism configuration.
@@ -287,5 +288,21 @@ theorem C04_hashSemiPar (kl kr : Row → Value) (left : List Row) (rchunks : Lis
 theorem C04_hashAntiPar (kl kr : Row → Value) (left : List Row) (rchunks : List (List Row)) :
     hashAntiPar kl kr left rchunks = hashAnti kl kr left rchunks.flatten := by
   simp only [hashAntiPar, hashAnti, C04_buildHashPar]
+
+/-! ### every filter implementation uses the same "is this WHERE value true?" rule -/
+
+def truthyTableOk (t : List (String × String × String)) : Bool :=
+  t.all (fun a => a.2.1 == "!=" && (a.2.2 == "0" || a.2.2 == "0.0")) &&
+  ["Integer", "Smallint", "Bigint"].all (fun ty => t.any (fun a => a.1 == ty))
+
+/-- the sequential, rayon and vectorized filters (select/filter.rs, select/vectorized/predicate.rs), as
+they are in the tree now, all use "non-zero is TRUE" for every numeric type and cover the same integer
+types — so a numeric WHERE value cannot be kept by one of them and dropped by another (`Value.truthy`
+in the model is that rule). An edited arm (seeded C04-2: `> 0` in the rayon copy) breaks this `decide`. -/
+theorem C04_truthiness_tables_agree :
+    Generated.c04TruthyTables.all (fun ft => truthyTableOk ft.2) = true ∧
+    Generated.c04TruthyTables.length ≥ 3 ∧
+    (∀ i : Int, Value.truthy (.int i) = .ok (TV.ofBool (i != 0))) := by
+  refine ⟨by decide, by decide, fun i => rfl⟩
 
 end VibeProof.C04
